@@ -16,6 +16,8 @@ pub enum UacEdit {
     Write(Map),
     /// raw bytes (possibly not JSON)
     Raw(Vec<u8>),
+    /// written to a new file that is renamed over the old one (another inode)
+    Replace(Map),
     /// the same content, but a modification time one day BEFORE everything so far (an older copy restored)
     Older,
 }
@@ -296,6 +298,7 @@ impl Session {
                     UacEdit::Delete => { let _ = std::fs::remove_file(&path); }
                     UacEdit::Write(m) => { let _ = std::fs::write(&path, map_json(m)); }
                     UacEdit::Raw(b) => { let _ = std::fs::write(&path, b); }
+                    UacEdit::Replace(m) => { let tmp = path.with_extension("json.new"); let _ = std::fs::write(&tmp, map_json(m)); let _ = std::fs::rename(&tmp, &path); }
                     UacEdit::Older => { if let Ok(f) = std::fs::File::options().write(true).open(&path) { let _ = f.set_modified(self.t0 - Duration::from_secs(86_400)); } }
                 }
                 if !matches!(edit, UacEdit::Keep | UacEdit::Delete | UacEdit::Older) {
@@ -433,7 +436,7 @@ impl SEv {
             if let Some(d) = u.get("database") { return Some(SEv::UpdateDb(d.as_bool()?)); }
             if let Some(l) = u.get("layout") { return Some(SEv::UpdateLayout(l.as_str()?.to_string(), u["option_bits"].as_u64()? as u32)); }
             let e = u["user_autocorrect_edit"].as_str().unwrap_or("Keep");
-            let edit = if e.starts_with("Delete") { UacEdit::Delete } else if e.starts_with("Older") { UacEdit::Older } else if e.starts_with("Write") {
+            let edit = if e.starts_with("Delete") { UacEdit::Delete } else if e.starts_with("Older") { UacEdit::Older } else if e.starts_with("Write") || e.starts_with("Replace") {
                 // Write([("k", "v"), ...])
                 let mut m = Vec::new();
                 let mut rest = e;
